@@ -395,54 +395,7 @@ theorem invert_fst_ref (e r inv : Expr) (h : invert e = some (r, inv)) : ∃ x, 
       exact invertAux_fst_ref path e .logical r inv (by rw [← hp, ← h1]) h
     · cases hp
 
-/-! ### Virtual write methods -/
-
-/-- **Writing through a transform virtual field**: a successful `TryToWrite(v)` stores in the
-destination the value that makes the virtual field's `read_transform` evaluate to `v`
-(whatever the other fields hold — the transform mentions only the destination), the
-destination accepted that value, and a failed write leaves the destination untouched. -/
-theorem transform_write (rt body : Expr) (x : Nat) (hinv : invert rt = some (.ref x, body))
-    (valueIsOk : Int → Bool) (d : Dest) (v : Int) (env : Nat → Int) :
-    (∀ d', virtualTryToWrite body valueIsOk d v = (true, d') →
-      eval (update env x d'.value) v rt = some v ∧ d.could d'.value = true ∧
-      valueIsOk v = true ∧ d.complete = true) ∧
-    (∀ d', virtualTryToWrite body valueIsOk d v = (false, d') → d' = d) := by
-  have hfree := invert_refFree rt _ body hinv
-  constructor
-  · intro d' h
-    unfold virtualTryToWrite at h
-    split at h
-    · rename_i hc
-      unfold virtualCould at hc
-      cases hb : eval (fun _ => 0) v body with
-      | none => simp [hb] at hc
-      | some u =>
-        simp only [hb, Bool.and_eq_true] at hc h
-        unfold Dest.tryToWrite at h
-        split at h
-        · rename_i hcc
-          simp only [Prod.mk.injEq, true_and] at h
-          subst h
-          simp only [Bool.and_eq_true] at hcc
-          have hb' : eval env v body = some u := by
-            rw [eval_env_irrel body hfree env (fun _ => 0)]; exact hb
-          obtain ⟨x', hx', heq⟩ := inverse_correct rt _ body hinv env v u hb'
-          cases hx'
-          exact ⟨heq, hcc.1, hc.1, hcc.2⟩
-        · simp at h
-    · simp at h
-  · intro d' h
-    unfold virtualTryToWrite at h
-    split at h
-    · cases hb : eval (fun _ => 0) v body with
-      | none => simp only [hb, Prod.mk.injEq] at h; exact h.2.symm
-      | some u =>
-        simp only [hb] at h
-        unfold Dest.tryToWrite at h
-        split at h
-        · simp at h
-        · simp only [Prod.mk.injEq] at h; exact h.2.symm
-    · simp only [Prod.mk.injEq] at h; exact h.2.symm
+/-! ### Write methods (the generated virtual write methods: `Lemmas/WriteInferenceCpp.lean`) -/
 
 /-- **Aliases**: `_add_write_method` gives `alias x` only to a virtual field that is exactly
 the reference `x` (no `[requires]`) of a field of the structure that is itself writable, and
